@@ -6,9 +6,10 @@ sys.path.insert(0, ROOT)
 from checks_config import PROPS, NOT_APPLICABLE
 
 all_ids = [json.loads(l)["id"] for l in open(os.path.join(ROOT, "properties.jsonl"))]
+ready = set(open(os.path.join(ROOT, "ready.txt")).read().split())
 checks = []
 for pid in all_ids:
-    if pid not in PROPS:
+    if pid not in PROPS or pid not in ready:
         continue
     c = PROPS[pid]
     checks.append(dict(
@@ -24,7 +25,7 @@ for pid in all_ids:
     ))
 na = [dict(property_id=k, reason=v) for k, v in NOT_APPLICABLE.items()]
 for pid in all_ids:
-    if pid not in PROPS and pid not in NOT_APPLICABLE:
+    if (pid not in PROPS or pid not in ready) and pid not in NOT_APPLICABLE:
         na.append(dict(property_id=pid, reason="check not yet built in this session (work in progress; see DESIGN.md section 4 for the plan)"))
 m = dict(
     version=1,
